@@ -84,6 +84,14 @@ def rule_C02(env):
             res.add("R02.c", "classes/%s" % op, "memo size classes %r not all exercised for %s (got %r)" % (PV.G.MEMO_CLASSES, op, sorted(cs)))
         if op in PUTS and op != "Memoize" and not set(PV.G.MEMO_CLASSES) <= cs:
             res.add("R02.a", "classes/%s" % op, "memo size classes %r not all exercised for %s (got %r)" % (PV.G.MEMO_CLASSES, op, sorted(cs)))
+    # which memo index a GET/PUT names is decided by the BYTES: every emission must be the one well-formed opcode the simulation
+    # assumes, otherwise later arguments are read at the wrong offset (O5, shared with C01/C17)
+    import rules_c04
+    tmp = Result("C02", "model_checking")
+    rules_c04.emission_findings(env, tmp, tr, "safe")
+    for f in tmp.findings:
+        res.add("O5", f.key.split("/", 2)[2], "the emitted bytes are not the single well-formed opcode the simulation assumes, so memo "
+                "indices are decoded from the wrong bytes from there on: " + f.msg, f.where, f.detail)
     bfs = PV.bfs_pass(env, res, "C02")
     PV.coverage_mc(res, env, tr, n, nobl, samples, bfs)
     res.assumptions = PV.ASSUME_PVM + ["results of dyn Mutator::mutate_memo_index are the join over every impl in the crate (OffByOne, MemoIndex safe) at any rate"]
